@@ -169,3 +169,22 @@ func Time() time.Time { return time.Unix(int64(Int()), int64(Int())).UTC() }
 // HeldDuring reports whether every occurrence of the named event happened
 // while the given mutex was held (engine only).
 func HeldDuring(lock any, event string) bool { return true }
+
+// First64 returns the first 8 bytes of b as a big-endian integer (0 if shorter).
+func First64(b []byte) uint64 {
+	if len(b) < 8 {
+		return 0
+	}
+	var v uint64
+	for i := 0; i < 8; i++ {
+		v = v<<8 | uint64(b[i])
+	}
+	return v
+}
+
+// Put64 stores v big-endian into b[:8].
+func Put64(b []byte, v uint64) {
+	for i := 0; i < 8; i++ {
+		b[i] = byte(v >> (56 - 8*uint(i)))
+	}
+}
